@@ -143,6 +143,13 @@ def batch_twin(sc, base, k):
     return s
 
 
+def _mgr_tfs(sc, names):
+    if sc["obj"] == "ind":
+        return [sc["inds"][0].timeframe]
+    hx = sc.get("hex", {})
+    return [hx.get("timeframe") if n == "default" else n for n in (names or ["default"])]
+
+
 def record(sc):
     tfs = [c.timeframe for c in sc["inds"]] + [sc.get("hex", {}).get("timeframe")]
     base = base_for([t for t in tfs if t])
@@ -182,16 +189,52 @@ def record(sc):
         prev = cur
         if exc:
             break
-    # batch twin on the final state
-    if sc.get("twin") == "batch" and events and not events[-1]["exc"] and consumed > 0:
-        try:
-            tw = batch_twin(sc, base, consumed)
-            events[-1]["bt"] = [{"on": 1, "cs": proj_candles(cs, base)} for _, cs in tw.managers()]
-        except Exception as e:
-            events[-1]["bt"] = []
-            events.append({"op": "batch", "a": 0, "b": consumed, "nm": "", "idx": 0,
-                           "exc": type(e).__name__, "m": [{"drop": 0, "len": len(p), "d": []} for p in prev],
-                           "bt": []})
+    # twins on the final state: the same configuration driven differently
+    if events and not events[-1]["exc"] and consumed > 0:
+        skip_of = [1 if (m_tf) else 0 for m_tf in _mgr_tfs(sc, mg_names)]
+        for kind in sc.get("twins", []):
+            try:
+                if kind == "batch":
+                    tw = batch_twin(sc, base, consumed)
+                    for j, (_, cs) in enumerate(tw.managers()):
+                        events[-1]["bt"].append({"j": j + 1, "mode": "full", "skip": 0, "names": [],
+                                                 "clause": "batch", "cs": proj_candles(cs, base)})
+                elif kind == "longer":
+                    tw = batch_twin(sc, base, len(sc["stream"]))
+                    for j, (_, cs) in enumerate(tw.managers()):
+                        events[-1]["bt"].append({"j": j + 1, "mode": "prefix", "skip": skip_of[j],
+                                                 "names": [], "clause": "longer",
+                                                 "cs": proj_candles(cs, base)})
+                elif kind == "untrimmed":
+                    sc2 = dict(sc)
+                    sc2["inds"] = [c.clone(lifespan=None) for c in sc["inds"]]
+                    if "hex" in sc:
+                        sc2["hex"] = dict(sc["hex"], lifespan=None)
+                    tw = Session(sc2, base)
+                    for step in sc["prog"]:
+                        tw.run(step)
+                    for j, (_, cs) in enumerate(tw.managers()):
+                        events[-1]["bt"].append({"j": j + 1, "mode": "tail", "skip": 0, "names": [],
+                                                 "clause": "untrimmed", "cs": proj_candles(cs, base)})
+                elif kind == "standalone":
+                    hx = sc.get("hex", {})
+                    for c, live in zip(sc["inds"], ses.names):
+                        c2 = c.clone(timeframe=c.timeframe or hx.get("timeframe"),
+                                     fill=hx.get("fill", False), lifespan=hx.get("lifespan"),
+                                     ctype=hx.get("ctype"))
+                        sc2 = {"id": sc["id"], "fam": sc["fam"], "obj": "ind", "inds": [c2],
+                               "stream": sc["stream"], "prog": sc["prog"]}
+                        tw = Session(sc2, base)
+                        for step in sc["prog"]:
+                            tw.run((step[0], "", *step[2:]) if step[0] in ("calculate",) else step)
+                        events[-1]["bt"].append({"j": c.mg_index(mg_names), "mode": "full", "skip": 0,
+                                                 "names": [live], "clause": "standalone",
+                                                 "cs": proj_candles(tw.obj.candles, base)})
+            except Exception as e:
+                events.append({"op": "twin_" + kind, "a": 0, "b": consumed, "nm": "", "idx": 0,
+                               "exc": type(e).__name__,
+                               "m": [{"drop": 0, "len": len(p), "d": []} for p in prev], "bt": []})
+                break
     # manager and indicator descriptors
     mg = []
     inds = []
@@ -208,8 +251,7 @@ def record(sc):
             else:
                 mg.append(mgr_cfg(n, n, hx.get("fill"), hx.get("lifespan"), hx.get("ctype"), src=1))
         for c, live in zip(sc["inds"], ses.names):
-            tf = (c.timeframe or "").upper()
-            c.mg = names.index(tf) + 1 if tf and tf in names else 1
+            c.mg = c.mg_index(names)
             inds.append(c.spec(live))
     return {"id": sc["id"], "fam": sc["fam"], "mg": mg, "ind": inds,
             "raw": raw_json(sc["stream"]), "ev": events}
